@@ -1054,3 +1054,109 @@ pub async fn serial_client_restart(k: usize, ev: &mut Evidence) -> Vec<(String, 
     let _ = std::fs::remove_file(&link);
     problems
 }
+
+/// RTU server task and the retry strategy when the port cannot be opened: failed opens double the
+/// wait up to the cap, a successful opening restarts the sequence (reset), a lost port waits `min`
+/// and the failed opens that follow start at `min` again.
+pub async fn rtu_server_failed_opens(k: usize, ev: &mut Evidence) -> Vec<(String, String)> {
+    let mut problems = vec![];
+    let Some(a) = Pty::open_primed() else {
+        ev.count("pty_unavailable", 1);
+        return problems;
+    };
+    let link = unique_link("srvfail");
+    let nowhere = format!("{link}.nowhere");
+    if !point_link(&link, &nowhere) {
+        ev.count("pty_unavailable", 1);
+        return problems;
+    }
+    let min = Duration::from_millis([40u64, 55][k % 2]);
+    let max = Duration::from_millis([130u64, 200][k % 2]);
+    let log = Arc::new(Mutex::new(vec![]));
+    let map = ServerHandlerMap::single(UnitId::new(7), Regs.wrap());
+    let (handle, task) = create_rtu_server_task(&link, settings(), Box::new(LogStrategy { inner: doubling_retry_strategy(min, max), log: log.clone() }), map, DecodeLevel::nothing());
+    let jh = tokio::spawn(task.run());
+    let a = Arc::new(a);
+    let wait_calls = |n: usize, limit: Duration| {
+        let log = log.clone();
+        async move {
+            let t0 = Instant::now();
+            while log.lock().unwrap().len() < n && t0.elapsed() < limit {
+                tokio::time::sleep(Duration::from_millis(5)).await;
+            }
+            log.lock().unwrap().len() >= n
+        }
+    };
+    let fails_first = 4 + k % 2;
+    'script: {
+        if !wait_calls(fails_first, Duration::from_secs(5)).await {
+            problems.push(("rtu_server_failed_opens:no_retries".into(), format!("the RTU server made {} strategy calls in 5 s with a port that cannot be opened", log.lock().unwrap().len())));
+            break 'script;
+        }
+        // the port appears
+        if !point_link(&link, &a.slave_path) {
+            ev.inconclusive("rtu server failed-opens leg: cannot point the link at the pty");
+            break 'script;
+        }
+        let a2 = a.clone();
+        if tokio::task::spawn_blocking(move || a2.wait_slave(true, Duration::from_secs(4))).await.ok().flatten().is_none() {
+            problems.push(("rtu_server_failed_opens:port_not_opened".into(), "the port appeared but was not opened within 4 s".into()));
+            break 'script;
+        }
+        let n_open = log.lock().unwrap().len();
+        tokio::time::sleep(Duration::from_millis(60)).await;
+        // and disappears again: a wait of `min`, then failed opens starting at `min`
+        if !point_link(&link, &nowhere) {
+            ev.inconclusive("rtu server failed-opens leg: cannot re-point the link");
+            break 'script;
+        }
+        unsafe { libc::close(a.master) };
+        if !wait_calls(n_open + 4, Duration::from_secs(5)).await {
+            problems.push(("rtu_server_failed_opens:no_retries_after_loss".into(), format!("strategy calls {:?}", log.lock().unwrap())));
+            break 'script;
+        }
+    }
+    let _ = handle.shutdown().await;
+    if tokio::time::timeout(Duration::from_secs(10), jh).await.is_err() {
+        problems.push(("rtu_server:task_did_not_terminate".into(), "RTU server task still running 10 s after shutdown".into()));
+    }
+    let _ = std::fs::remove_file(&link);
+    if let Ok(p) = Arc::try_unwrap(a) {
+        std::mem::forget(p); // the master was closed by hand
+    }
+    // the whole call log against the arithmetic: k-th consecutive failure since the last reset -> min * 2^(k-1) capped
+    let calls = log.lock().unwrap().clone();
+    ev.eval();
+    ev.count("rtu_server_failed_open_scripts", 1);
+    ev.count("strategy_calls_observed", calls.len() as u64);
+    let mut kf = 0u32;
+    let mut resets = 0;
+    for (i, c) in calls.iter().enumerate() {
+        match c {
+            SCall::Fail(d) => {
+                kf += 1;
+                let want = min.checked_mul(2u32.saturating_pow(kf - 1)).unwrap_or(max).min(max);
+                ev.class(format!("rtu_server|failed_open|k={}|{}", kf.min(4), if *d == max { "max" } else if *d == min { "min" } else { "between" }));
+                if *d != want {
+                    problems.push(("rtu_server_failed_opens:delay".into(), format!("call #{i}: failed open #{kf} since the last successful opening waited {d:?}, expected {want:?}; calls {calls:?}")));
+                    break;
+                }
+            }
+            SCall::Reset => {
+                kf = 0;
+                resets += 1;
+            }
+            SCall::Disconnect(d) => {
+                ev.class("rtu_server|port_lost|min".to_string());
+                if *d != min {
+                    problems.push(("rtu_server_failed_opens:disconnect_delay".into(), format!("call #{i}: after the port was lost the wait is {d:?}, expected min = {min:?}; calls {calls:?}")));
+                    break;
+                }
+            }
+        }
+    }
+    if problems.is_empty() && (resets != 1 || !calls.iter().any(|c| matches!(c, SCall::Disconnect(_)))) {
+        problems.push(("rtu_server_failed_opens:grammar".into(), format!("expected failed opens, one reset at the successful opening, one disconnect, failed opens; calls {calls:?}")));
+    }
+    problems
+}
